@@ -160,6 +160,10 @@ func cut(w http.ResponseWriter) {
 }
 
 func (c *FakeConsul) handleKV(w http.ResponseWriter, r *http.Request) {
+	// The server side closes every connection after its response: the TIME_WAIT sockets then sit on the listener's
+	// port instead of using up one ephemeral port each on the client side (thousands of cases per run would exhaust
+	// the ephemeral range and make later bind(:0) calls fail).
+	w.Header().Set("Connection", "close")
 	key := strings.TrimPrefix(r.URL.Path, "/v1/kv/")
 	q := r.URL.Query()
 	body, _ := io.ReadAll(r.Body)
